@@ -38,6 +38,18 @@ theorem abs_rel_roundtrip (vals : List Int) (c : Int) :
     (toRelative ⟨vals, false⟩ (some c)).bind (fun a => toAbsolute a (some c)) = .ok ⟨vals, false⟩ := by
   simp [toAbsolute, toRelative, Except.bind, List.map_map, Function.comp_def]
 
+/-- a horizon DERIVED by `to_absolute(c1)` is an ordinary absolute horizon: converted back with ANY
+other cutoff `c2` it gives the steps as seen from `c2` (nothing of `c1` is remembered) -/
+theorem derived_absolute_relative_to_other_cutoff (vals : List Int) (c1 c2 : Int) :
+    (toAbsolute ⟨vals, true⟩ (some c1)).bind (fun a => toRelative a (some c2)) =
+      .ok ⟨vals.map (fun v => v + (c1 - c2)), true⟩ := by
+  simp only [toAbsolute, toRelative, Except.bind, Bool.not_true, Bool.false_eq_true, ↓reduceIte,
+    List.map_map, Function.comp_def]
+  congr 2
+  apply List.map_congr_left
+  intro v _
+  omega
+
 /-- in-sample part = steps ≤ 0 (relative horizon) -/
 theorem insample_eq_filter (vals : List Int) (c : Option Int) :
     toInSample ⟨vals, true⟩ c = .ok ⟨vals.filter (fun v => decide (v ≤ 0)), true⟩ := by
@@ -77,6 +89,17 @@ theorem indexer_eq_steps_sub_one (vals : List Int) (c : Option Int) :
 theorem indexer_absolute_eq_steps_sub_one (vals : List Int) (c : Int) :
     toIndexer ⟨vals.map (c + ·), false⟩ (some c) true = .ok (vals.map (· - 1)) := by
   simp [toIndexer, toRelative, bind, Except.bind, pure, Except.pure, List.map_map, Function.comp_def]
+
+/-- ... and its zero-based indexer is (steps as seen from `c2`) - 1 -/
+theorem derived_absolute_indexer_from_other_cutoff (vals : List Int) (c1 c2 : Int) :
+    (toAbsolute ⟨vals, true⟩ (some c1)).bind (fun a => toIndexer a (some c2) true) =
+      .ok (vals.map (fun v => v + (c1 - c2) - 1)) := by
+  simp only [toAbsolute, toIndexer, toRelative, bind, Except.bind, pure, Except.pure, Bool.not_true,
+    Bool.false_eq_true, ↓reduceIte, List.map_map, Function.comp_def]
+  congr 1
+  apply List.map_congr_left
+  intro v _
+  omega
 
 /-- conversions preserve order -/
 theorem order_preserved_abs (vals : List Int) (c : Int) (hs : StrictSorted vals) :
